@@ -223,6 +223,12 @@ def only_polled_parameters(ctx):
             ok = all(isinstance(y, ast.YieldFrom) and src(y.value).endswith('.polled_parameters') for g, ys in gens for y in ys)
             for g, ys in gens:
                 ctx.analysed(g)
+    if not srcs and not ok:
+        for x in body_walk(pt.node):
+            if isinstance(x, ast.Assign) and any(src(t) in lists for t in x.targets) and isinstance(x.value, ast.Call) and isinstance(x.value.func, ast.Name) \
+                    and m.resolve_name(pt.module, x.value.func.id) in m.classes:
+                ctx.undecided(f'{pt.qualname}:slow polls drawn from polled_parameters', x, f'`{src(x)}`: the slow polls are kept by an object of a helper class, which is not followed', pt)
+                return
     ctx.check(ok, f'{pt.qualname}:slow polls drawn from polled_parameters', pt.node, 'to_poll.extend(pinfo.polled_parameters)',
               'the slow-poll list is filled from another source than polled_parameters', pt)
     first = [n for n in body_walk(pt.node) if isinstance(n, ast.For) and (src(n.iter).endswith('polled_parameters') or
